@@ -9,6 +9,7 @@ From Pnc Require Import Proofs_Move.
 From Pnc Require Import Proofs_Layout.
 From Pnc Require Import Proofs_Redef.
 From Pnc Require Import Proofs_Exec2.
+From Pnc Require Import Proofs_Reach3.
 Set Printing Width 100.
 Set Printing Depth 100000.
 
@@ -262,6 +263,10 @@ Theorem C06_exec_redef_enddef_disk :
 Proof. exact @redef_enddef_disk. Qed.
 Print Assumptions C06_exec_redef_enddef_disk.
 
+(* ---- for EVERY reachable state of the API-level model (Proofs_Reach*.v) ---- *)
+(* C06 redef ... enddef preserves the data (for every history) ---------------- *)
+(* any reachable state in define mode after a redef (whatever was defined since): a successful enddef *)
+(* leaves every byte of every old variable, in every existing record, at its new place *)
 Theorem C06_exec_redef_enddef_run_preserves :
   forall (w : Exec.world) (id : Z) (f : Exec.filest) (ea : Header.enddef_args)
            (oh : Header.hdr) (ol : Header.layout) (w' : Exec.world),
@@ -305,3 +310,73 @@ Theorem C06_exec_redef_enddef_run_preserves :
                Disk.dk_get d0 (ob + r * Header.l_recsize ol + o))))).
 Proof. exact @redef_enddef_run_preserves. Qed.
 Print Assumptions C06_exec_redef_enddef_run_preserves.
+
+(* the same for any world satisfying the invariant; the invariant holds again afterwards *)
+Theorem C06_reachable_redef_preserves :
+  forall (n : Z) (cs : list cmd) (id : Z) (f : Exec.filest) (ea : Header.enddef_args)
+           (oh : Header.hdr) (ol : Header.layout) (w' : Exec.world),
+         (1 <= n)%Z ->
+         run_ok (Exec.world0 n) cs = true ->
+         let w := run (Exec.world0 n) cs in
+         Base.znth (Exec.w_files w) id None = Some f ->
+         Exec.f_tainted f = false ->
+         Exec.f_indef f = true ->
+         Exec.f_old f = Some (oh, ol) ->
+         Exec.do_enddef w id f ea = Some (w', Gen_consts.NC_NOERR) ->
+         exists lay : Header.layout,
+           Base.znth (Exec.w_files w') id None = Some (enddef_file f lay) /\
+           (Proofs_Header.wf_hdr (enddef_hdr f lay) = true ->
+            forall i : Z,
+            (0 <= i < Base.Zlen (Header.h_vars oh))%Z ->
+            let ov := Base.znth (Header.h_vars oh) i dv in
+            (Header.is_recvar (Header.h_dims oh) ov = false ->
+             forall o : Z,
+             (0 <= o < Header.var_len (Header.h_dims oh) ov)%Z ->
+             Disk.dk_get (Exec.get_disk w' (Exec.f_slot f))
+               (Base.znth (Header.l_begins lay) i 0%Z + o) =
+             Disk.dk_get (Exec.get_disk w (Exec.f_slot f)) (Base.znth (Header.l_begins ol) i 0%Z + o)) /\
+            (Header.is_recvar (Header.h_dims oh) ov = true ->
+             forall r o : Z,
+             (0 <= r < Header.h_numrecs oh)%Z ->
+             (0 <= o < Header.var_len (Header.h_dims oh) ov)%Z ->
+             (Base.znth (Header.l_begins ol) i 0 - Header.l_begin_rec ol + o < Header.l_recsize ol)%Z ->
+             Disk.dk_get (Exec.get_disk w' (Exec.f_slot f))
+               (Base.znth (Header.l_begins lay) i 0%Z + r * Header.l_recsize lay + o) =
+             Disk.dk_get (Exec.get_disk w (Exec.f_slot f))
+               (Base.znth (Header.l_begins ol) i 0%Z + r * Header.l_recsize ol + o))).
+Proof. exact @reachable_redef_preserves. Qed.
+Print Assumptions C06_reachable_redef_preserves.
+
+Theorem C06_inv_redef_preserves :
+  forall (w : Exec.world) (id : Z) (f : Exec.filest) (ea : Header.enddef_args)
+           (oh : Header.hdr) (ol : Header.layout) (w' : Exec.world),
+         Proofs_Reach.world_inv w ->
+         Base.znth (Exec.w_files w) id None = Some f ->
+         Exec.f_tainted f = false ->
+         Exec.f_indef f = true ->
+         Exec.f_old f = Some (oh, ol) ->
+         Exec.do_enddef w id f ea = Some (w', Gen_consts.NC_NOERR) ->
+         Proofs_Reach.world_inv w' /\
+         (exists lay : Header.layout,
+            Base.znth (Exec.w_files w') id None = Some (enddef_file f lay) /\
+            (Proofs_Header.wf_hdr (enddef_hdr f lay) = true ->
+             let d0 := Exec.get_disk w (Exec.f_slot f) in
+             let d3 := Exec.get_disk w' (Exec.f_slot f) in
+             forall i : Z,
+             (0 <= i < Base.Zlen (Header.h_vars oh))%Z ->
+             let ov := Base.znth (Header.h_vars oh) i dv in
+             let len := Header.var_len (Header.h_dims oh) ov in
+             let ob := Base.znth (Header.l_begins ol) i 0%Z in
+             let nb := Base.znth (Header.l_begins lay) i 0%Z in
+             (Header.is_recvar (Header.h_dims oh) ov = false ->
+              forall o : Z, (0 <= o < len)%Z -> Disk.dk_get d3 (nb + o) = Disk.dk_get d0 (ob + o)) /\
+             (Header.is_recvar (Header.h_dims oh) ov = true ->
+              (nb - Header.l_begin_rec lay)%Z = (ob - Header.l_begin_rec ol)%Z /\
+              (forall r o : Z,
+               (0 <= r < Header.h_numrecs oh)%Z ->
+               (0 <= o < len)%Z ->
+               (ob - Header.l_begin_rec ol + o < Header.l_recsize ol)%Z ->
+               Disk.dk_get d3 (nb + r * Header.l_recsize lay + o) =
+               Disk.dk_get d0 (ob + r * Header.l_recsize ol + o))))).
+Proof. exact @inv_redef_preserves. Qed.
+Print Assumptions C06_inv_redef_preserves.
